@@ -145,6 +145,25 @@ def _has_var(e):
     return False
 
 
+def acc_fn(obl):
+    """names of the uninterpreted functions occurring in an obligation"""
+    import z3
+    names, seen = set(), set()
+    todo = list(obl.hyps) + [obl.goal]
+    while todo:
+        e = todo.pop()
+        if e.get_id() in seen:
+            continue
+        seen.add(e.get_id())
+        if z3.is_quantifier(e):
+            todo.append(e.body())
+        elif z3.is_app(e):
+            if e.decl().kind() == z3.Z3_OP_UNINTERPRETED and e.num_args() > 0:
+                names.add(e.decl().name())
+            todo.extend(e.children())
+    return names
+
+
 def _solve(eng, obl, timeout_ms, want_model=False):
     import z3
     acc, seen = set(), set()
@@ -162,6 +181,12 @@ def _solve(eng, obl, timeout_ms, want_model=False):
     s = z3.Solver()
     s.set("timeout", timeout_ms)
     s.add(*obl.hyps)
+    if "prefix_elems" in acc_fn(obl):
+        from .spec import pe_axioms
+        s.add(*pe_axioms(full=bool(eng.cur is not None and eng.cur.ghost.get("pe_full"))))
+        if eng.cur is not None and eng.cur.ghost.get("pe_lemma"):
+            from .spec import pe_remaining_lemma
+            s.add(pe_remaining_lemma())
     if eng.ground is None:
         s.add(*eng.heap_axioms(z3.Int("alloc0"), fields))
     else:
@@ -252,6 +277,21 @@ def verify_one(args):
         timeout = 6000 if tier == "quick" else 60000
         eng = Verifier(sources, classes, contracts, ground=None, mode=mode)
         eng.covers = []
+        if con.lemma is not None:
+            res = []
+            for nm, hyps, goal in con.lemma():
+                s = z3.Solver()
+                s.set("timeout", timeout)
+                s.add(*hyps)
+                s.add(z3.Not(goal))
+                t = time.time()
+                r = s.check()
+                res.append({"name": "%s:%s" % (name, nm), "status": "proved" if r == z3.unsat else
+                            ("refuted" if r == z3.sat else "unknown"), "time_s": time.time() - t, "n_vcs": 1,
+                            "detail": "" if r == z3.unsat else "lemma not proved: z3 says %s" % r, "solver": "z3",
+                            "model": None, "smt2": ""})
+            return {"function": name, "obls": res, "paths": 0, "solver_time": sum(x["time_s"] for x in res),
+                    "wall": time.time() - t0, "error": None}
         if con.name not in sources:
             return {"function": name, "error": "function %s not found in the source "
                     "(renamed or deleted?)" % name, "obls": []}
